@@ -91,5 +91,15 @@ pub fn run(ctx: &Ctx) -> i32 {
         }
         bad += rep.violations.len();
     }
+    // (6) calls racing on one snapshot
+    {
+        let s = MdkMemoryStorage::default();
+        let rep = run_rollback_races(&s, &u, 3, 3, seed);
+        println!("MIRI rollback-races ops={} violations={}", rep.histories_ops, rep.violations.len());
+        for v in rep.violations.iter().take(5) {
+            println!("MIRI-VIOLATION {} :: {}", v.0, v.1);
+        }
+        bad += rep.violations.len();
+    }
     if bad > 0 { 1 } else { 0 }
 }
